@@ -47,6 +47,8 @@ PRELUDE = [
     ['setreg', 'saturation', ['num', '50']],
     ['setreg', 'brightness', ['num', '12.5']],
     ['setreg', 'kelvin', ['num', '2700']],
+    ['setreg', 'duration', ['num', '4']],
+    ['setreg', 'time', ['num', '3']],
     ['routine', 'f1', ['p'], [['return', ['bin', '*', ['var', 'p'],
                                           ['num', '2']]]]],
     ['routine', 'f2', ['p'], [['print', ['str', 'in-f2']],
@@ -78,7 +80,7 @@ SPECS = {'int': ['', ':d', ':>5', ':05d', ':x', ':<3'],
          'float': ['', ':.2f', ':8.3f', ':.0f', ':g'],
          'str': ['', ':>8', ':<6', ':s', ':^7'],
          'bool': ['']}
-NAMED = {'int': ['a', 'hue', 'kelvin', 'saturation'],
+NAMED = {'int': ['a', 'hue', 'kelvin', 'saturation', 'duration', 'time'],
          'float': ['b', 'brightness'], 'str': ['s']}
 TEXT = ['x', 'Light:', '=', ', ', ' ', '\\n', '{{', '}}', '#', 'a b', '%',
         '-', '']
